@@ -163,7 +163,7 @@ class Base1DIn2D(object):
 
     def __key(self):
         """A tuple based on the object properties, useful for hashing."""
-        return (hash(self.p), hash(self.v))
+        return (self.p, self.v)
 
     def __hash__(self):
         return hash(self.__key())
